@@ -84,8 +84,10 @@ func (f *FIBModule) add(interest *spec.Interest, pitToken []byte, inFace uint64)
 	}
 
 	faceID := inFace
+	faceGiven := false // the face was named in the command: it must exist
 	if params.FaceId != nil && *params.FaceId != 0 {
 		faceID = *params.FaceId
+		faceGiven = true
 		if face.FaceTable.Get(faceID) == nil {
 			response = makeControlResponse(410, "Face does not exist", nil)
 			f.manager.sendResponse(response, interest, pitToken, inFace)
@@ -97,7 +99,15 @@ func (f *FIBModule) add(interest *spec.Interest, pitToken []byte, inFace uint64)
 	if params.Cost != nil {
 		cost = *params.Cost
 	}
-	table.FibStrategyTable.InsertNextHopEnc(params.Name, faceID, cost)
+	addNexthop := func() { table.FibStrategyTable.InsertNextHopEnc(params.Name, faceID, cost) }
+	if !faceGiven {
+		addNexthop()
+	} else if !face.FaceTable.IfExists(faceID, addNexthop) {
+		// The face was removed after the check above
+		response = makeControlResponse(410, "Face does not exist", nil)
+		f.manager.sendResponse(response, interest, pitToken, inFace)
+		return
+	}
 
 	core.LogInfo(f, "Created nexthop for ", params.Name, " to FaceID=", faceID, "with Cost=", cost)
 	responseParams := map[string]any{
